@@ -34,3 +34,19 @@ CONTRACTS.append(Contract(
     ensures=[('within-DSP0004-range', '-32768 <= intval(result) <= 32767')],
     raises={'ValueError': Raises(), 'TypeError': Raises()},
 ))
+
+# ---- cimvalue(value, type): the result carries the CIM type that was asked for (not merely "some CIM type")
+NAMES = {'Uint8': 'uint8', 'Uint16': 'uint16', 'Uint32': 'uint32', 'Uint64': 'uint64',
+         'Sint8': 'sint8', 'Sint16': 'sint16', 'Sint32': 'sint32', 'Sint64': 'sint64'}
+for cls, (lo, hi) in LIMITS.items():
+    other = 'Sint64' if cls != 'Sint64' else 'Uint8'
+    CONTRACTS.append(Contract(
+        'pywbem/_cim_obj.py::cimvalue', label=f"type '{NAMES[cls]}'",
+        params={'value': Union(Int, Ref(cls), Ref(other)), 'type': Lit(NAMES[cls])},
+        # type invariant of an input object of the class itself (established by CIMInt.__new__, contracts above)
+        requires=[f'implies(isinstance(value, {cls}), {lo} <= intval(value) <= {hi})'],
+        ensures=[('result-is-of-the-named-CIM-type', f'isinstance(result, {cls})'),
+                 ('value-kept', 'intval(result) == intval(value)'),
+                 ('within-DSP0004-range', f'{lo} <= intval(result) <= {hi}')],
+        raises={'ValueError': Raises(post=[('only-out-of-range', f'intval(value) < {lo} or intval(value) > {hi}')])},
+    ))
